@@ -393,3 +393,38 @@ package core
 //@   unclaimed #requires@ the adders of the description targets are not under contract here
 //@   unclaimed #nil-deref@ see above
 //@   unclaimed #type-assert see above
+
+// ---------------------------------------------------------------- path parameters (C13: binding, in path order)
+// pathParameters is decided by the bounded stand-in of C13; here it is an assumed pure function of its argument (ppOf).
+//@ specfn ppOf(path string) []PathParameter
+//@ func pathParameters
+//@   tag C13
+//@   trusted
+//@   pure
+//@   ghostensures same(ret, ppOf(path))
+
+// frame of collectUsedUserTypes: it only adds names to the given set (it walks rules through callbacks, which keeps it
+// outside the modelled subset)
+//@ func (*JApiCore).collectUsedUserTypes
+//@   trusted
+//@   requires core != nil && sc != nil
+//@   modifies usedUserTypes.order, mapof(usedUserTypes.data)
+
+//@ func catalog.SrtPtr
+//@   inline
+//@ func catalog.NewSchema
+//@   inline
+
+// newPathVariables: the children of the result are exactly the given schemas, in the given order
+//@ func (*JApiCore).newPathVariables
+//@   tag C13 C01
+//@   requires core != nil
+//@   requires forall k :: 0 <= k && k < len(properties) ==> properties[k].schemaContentJSight != nil && DirWFv(properties[k].directive)
+//@   modifies heap(SchemaContentJSight.Key), heap(StringSet.order)
+//@   ensures [C13] ret1 == nil ==> ret0 != nil && fresh(ret0) && ret0.Schema.ContentJSight != nil && len(ret0.Schema.ContentJSight.Children) == len(properties)
+//@   ensures [C13] ret1 == nil ==> (forall k :: 0 <= k && k < len(properties) ==> ret0.Schema.ContentJSight.Children[k] == properties[k].schemaContentJSight)
+//@   loop 1 invariant 0 - 1 <= rangeindex && rangeindex <= rangelen - 1 && rangelen == len(properties)
+//@   loop 1 invariant s.ContentJSight != nil && fresh(s.ContentJSight) && len(s.ContentJSight.Children) == rangeindex + 1
+//@   loop 1 invariant forall k :: 0 <= k && k <= rangeindex ==> s.ContentJSight.Children[k] == properties[k].schemaContentJSight
+//@   loop 1 decreases rangelen - rangeindex
+//@   loop 1 frame s.ContentJSight, s.UsedUserTypes, heap(SchemaContentJSight.Key)
